@@ -73,8 +73,10 @@ theorem py_roundtrip (m : List Byte) : dec .cobs (pyEnc m) = some m := by
 
 example : pyEnc [1, 0, 2] = [2, 1, 2, 2, 0] := by decide
 
-/-- the (repaired) Python client's `encode_command` admits exactly the zero-free messages and frames them
-    like the reference -/
+/-- the (repaired) Python client's `encode_command`: `pyCmd` is a transcription of its two statements and
+    coincides with the reference `encStr` by definition — this theorem records that and nothing more; what ties
+    mpt.py itself to the reference is the `pycmd` op of the run (python3 executes encode_command, the C decoder
+    decodes its output) -/
 theorem py_cmd_refines (m : List Byte) : pyCmd m = encStr m := rfl
 
 example : pyCmd [0x68, 0, 0x69] = none ∧ pyCmd [0x68, 0x69] = some [0x68, 0x69, 0] := by decide
@@ -247,7 +249,10 @@ theorem delete_frame (st : EncState) (win pre body : List Byte) (hs : st.scratch
 
 example : (encodeCobsDel { done := 8 } [3, 0x61, 0x61, 0, 3, 0x62, 0x62, 0] 1).toOption.map (fun o => o.st.done) = some 4 := by decide
 
-/-- with an uninitialized window (NULL base, length 0) every encoder refuses and stores nothing -/
+/-- with an uninitialized window (NULL base, length 0) every encoder refuses and stores nothing.  `encodeNull`
+    has no successful branch, so this holds by construction of the model; that the C encoders behave like
+    `encodeNull` (which refusal, no store through the NULL pointer) is established by the `enc nullwin` op of
+    the run under ASan -/
 theorem null_window_refuses (c : Codec) (st : EncState) (src : Option (List Byte)) (o : EncOut) :
     encodeNull c st src ≠ .ok o := by
   unfold encodeNull
